@@ -133,6 +133,15 @@ Resolve(D, W, o, n, A) ==
        IF t.known THEN TextRes(t.s)
        ELSE IF r.f = "err" /\ r.e = "cyclic" THEN r ELSE LErr("missing")
 
+\* The TEXT a resolver provides, or a splice evaluates to, is handed to the value parser (parseValue): it becomes a
+\* number, a bool, nil or - through a top-level comma - a list.  TLC cannot take strings apart, so the texts of
+\* the universes that are not plain words are listed here (the parser itself is UcfgParseValue's subject, C17).
+TextVal(s) == CASE s = "7"    -> P("n", "7")
+                [] s = "true" -> P("b", "true")
+                [] s = "null" -> Nil
+                [] s = "p,q"  -> N(<<>>, <<StrV("p"), StrV("q")>>)
+                [] OTHER      -> StrV(s)
+
 \* the value a dyn leaf stands for: [ok |-> non-dyn value, o] / error   (cfgDynamic.getValue, followed
 \* through chains of reference values; the text of a splice / resolver is a string value here)
 ToValue(D, W, v, o, A) ==
@@ -140,10 +149,10 @@ ToValue(D, W, v, o, A) ==
   ELSE IF v.e.t = "ref" THEN
          LET r == Resolve(D, W, o, v.e.n, A) IN
          CASE r.f = "err"   -> EErr(r.e)
-           [] r.f = "text"  -> [ok |-> StrV(r.s), o |-> o, s |-> A]
+           [] r.f = "text"  -> [ok |-> TextVal(r.s), o |-> o, s |-> A]
            [] r.f = "found" -> ToValue(D, W, r.v, r.o, A \cup {v.e.n})
   ELSE LET t == EvalText(D, W, o, v.e, A) IN
-       IF IsE(t) THEN t ELSE [ok |-> StrV(t.ok), o |-> o, s |-> A]
+       IF IsE(t) THEN t ELSE [ok |-> TextVal(t.ok), o |-> o, s |-> A]
 
 \* value.toString
 ToText(D, W, v, o, A) ==
